@@ -276,6 +276,9 @@ register("C02",
          [planner_part("C02", _nt_calls2),
           e2e_part("C02", P_DEFAULT + [("p", {"p_extra_params": 0.95, "max_structs": 4, "units": [2, 3], "p_func": 0.2, "p_iface_root": 0.8,
                                                 "p_iface_arg": 0.4, "p_conc_arg": 0.8, "p_twin": 0.0}),
+                                         # bindings to struct providers (which offer S and *S), marker functions dot-imported / renamed:
+                                         # the interface must be fed by exactly the form the binding names
+                                         ("w", {"p_func": 0.15, "p_struct": 0.6, "p_extra_fields": 0.0, "units": [1, 2], "p_wire_import_forms": 1.0, "min_structs": 4, "max_structs": 7}),
                                          # adversarial names: a parameter called like the package of its own type, whose type has
                                          # methods looking exactly like that package's provider functions (capture = wrong source)
                                          ("q", {"adversarial": True, "p_extra_params": 0.95, "p_conc_arg": 0.9, "units": [1, 2],
